@@ -548,8 +548,10 @@ def run(ctx):
     n1 = sweep_pass_failures(ctx)
     n2 = sweep_midpass_faults(ctx, 200)
     n3 = sweep_unsupported(ctx)
-    ctx.coverage.update({"evaluations": n1 * 2 + n2 + n3 + sum(ctx.coverage.get("dispatcher_outcomes", {}).values()),
-                         "distinct_nontrivial": n1 + n2 + n3,
+    import c16_matrix
+    n4 = c16_matrix.sweep_guard_matrix(ctx, ctx.tier)     # "raise or be right" over the parameter neighbourhood of the plugins' rejection guards
+    ctx.coverage.update({"evaluations": n1 * 2 + n2 + n3 + int(n4 or 0) + sum(ctx.coverage.get("dispatcher_outcomes", {}).values()),
+                         "distinct_nontrivial": n1 + n2 + n3 + int(n4 or 0),
                          "rule": "crash points: every optimizer pass index forced to raise x 4 programs x {default,strict}; a fault injected at each of the first N graph-surgery calls "
                                  "inside the optimizer on 9 pattern graphs; 12 unsupported constructs at top level / loop body / loop cond / scan body / cond branch / jit body / function body",
                          "pass_abort_cases": n1, "midpass_fault_cases": n2, "unsupported_cases": n3})
@@ -559,5 +561,10 @@ def run(ctx):
 
 
 def replay(path):
+    import json
+    r = json.load(open(path)).get("replay", {})
+    if r.get("kind") == "guard_matrix":
+        import c16_matrix
+        return c16_matrix.replay_case(r["case"])
     print("replay: re-run ./check C16 (cases are deterministic)")
     return 0
